@@ -418,6 +418,11 @@ func readHeader(in *io.Reader) (manifest []byte, mac []byte, err error) {
 		*in = io.MultiReader(bytes.NewReader(extraBytes), *in)
 	}
 
+	// The manifest and the MAC are slices of the pooled buffer, which is given back to the pool when this function returns and can then be overwritten by any other stream.
+	// Return copies, so the caller can keep using them.
+	manifest = bytes.Clone(manifest)
+	mac = bytes.Clone(mac)
+
 	return manifest, mac, nil
 }
 
